@@ -190,6 +190,14 @@ def retention_keeps_newest(ctx):
         for o in origins(base, f.node):
             if isinstance(o, ast.Call) and dotted(o.func) == 'sorted' and not any(k.arg == 'reverse' for k in o.keywords):
                 asc = True
+        if not asc and isinstance(base, ast.Call) and isinstance(base.func, ast.Attribute) and dotted(base.func.value) == 'self' and \
+                f.cls is not None and m.has_method(f.cls.qualname, base.func.attr):
+            # the list comes from a helper method of the handler: what it returns is (a slice / a comprehension over) a sorted(...)
+            h = m.method(f.cls.qualname, base.func.attr)
+            for r in [x for x in body_walk(h.node) if isinstance(x, ast.Return) and x.value is not None]:
+                rv = resolved(r.value, h.node)
+                if any(isinstance(x, ast.Call) and dotted(x.func) == 'sorted' and not any(k.arg == 'reverse' for k in x.keywords) for x in ast.walk(rv)):
+                    asc = True
         if not asc:
             ctx.undecided(f'{f.qualname}:files removed', c, f'`{src(base)}` is not known to be sorted ascending', f)
             continue
@@ -203,6 +211,9 @@ def retention_keeps_newest(ctx):
             elif isinstance(o, ast.Call) and dotted(o.func) == 'sorted':
                 ctx.ok(f'{f.qualname}:files ordered by the date in their name', o, f'`{src(o)[:80]}`', f)
         sl = it.slice
+        if isinstance(sl, ast.Slice) and sl.lower is None and sl.upper is not None and not isinstance(sl.upper, ast.Name):
+            # `keep = self.max_days - 1; files[:-keep]`: once-bound locals inside the bound are spelled out
+            sl = ast.Slice(lower=None, upper=resolved(sl.upper, f.node), step=None)
         if isinstance(sl, ast.Slice) and sl.lower is None and isinstance(sl.upper, ast.Name):
             # the bound is computed into a local first
             ov = origins(sl.upper, f.node)
